@@ -32,6 +32,7 @@ def main():
         c = Check(a.pid, a.tier, level=suites.LEVELS.get(a.pid, "proof"))
         if a.replay:
             rp = json.load(open(a.replay if os.path.isabs(a.replay) else os.path.join(VERIF, a.replay)))
+            c.replay_mode = True
             suites.replay(c, rp)
         else:
             suites.SUITES[a.pid](c)
